@@ -236,7 +236,7 @@ pub fn enc_varkind(k: &VariableKind<ChalkIr>) -> Sexp {
         VariableKind::Lifetime => atom("klt"),
         VariableKind::Const(ty) => match ty.kind(I) {
             TyKind::Scalar(s) => tagged("kconst", vec![nat(scalar_code(*s))]),
-            _ => panic!("wire: const kind with non-scalar type"),
+            _ => tagged("kconst", vec![nat(0)]), // non-scalar const types have code 0 (as `Ty.scalarCode`)
         },
     }
 }
@@ -722,6 +722,10 @@ pub fn map_types(s: &Sexp, f: &mut dyn FnMut(&Sexp) -> Option<Sexp>) -> Sexp {
         Sexp::Atom(_) => s.clone(),
         Sexp::List(xs) => {
             let is_norm = xs.first().and_then(|x| x.as_atom()) == Some("normalize");
+            if xs.first().and_then(|x| x.as_atom()) == Some("const") {
+                // the type of a constant is not a position of its own
+                return s.clone();
+            }
             Sexp::List(
                 xs.iter()
                     .enumerate()
